@@ -393,6 +393,10 @@ pub fn literals() -> Vec<Lit> {
                     None => continue,
                 };
                 out.push(dur(vec!["T".into(), "#".into(), body.clone()], ns, label.to_string()));
+                // the same duration with a sign in front (a sweep of its own would need one more character)
+                if !body.starts_with('-') {
+                    out.push(dur(vec!["T".into(), "#".into(), format!("-{}", body)], ns.map(|v| -v), label.to_string()));
+                }
             }
             level = next;
         }
@@ -634,7 +638,7 @@ pub fn literals() -> Vec<Lit> {
             }
             Some(out)
         }
-        let alpha: [char; 9] = ['$', '4', '1', 'N', 'a', '\u{e9}', '\u{1F600}', '\'', '"'];
+        let alpha: [char; 11] = ['$', '4', '1', 'N', 'a', '\u{e9}', '\u{1F600}', '\'', '"', '{', '}'];
         let mut level: Vec<Vec<char>> = vec![vec![]];
         for _len in 0..4 {
             let mut next = vec![];
